@@ -536,7 +536,7 @@ pub fn check_c10(tier: Tier) -> Report {
         "thread interleavings of the serializer/commit/notifier threads are whatever the OS gives; the oracle is interleaving-independent".into(),
     ];
     known::replay_regressions(prop, &mut report, &|_doc| CaseResult::default());
-    let cases = if tier == Tier::Thorough { 80_000 } else { 3000 };
+    let cases = if tier == Tier::Thorough { 120_000 } else { 15_000 };
     let (stats, failure, _) = drive(seed, cases, 1500, &[], |bytes| {
         let mut t = Tape::new(bytes);
         let plan = C10Plan::decode(&mut t, tier);
@@ -937,7 +937,7 @@ pub fn check_c09(tier: Tier) -> Report {
         let mut t = Tape::new(&bytes);
         run_c09(&C9Plan::decode(&mut t, tier))
     });
-    let cases = if tier == Tier::Thorough { 200_000 } else { 6000 };
+    let cases = if tier == Tier::Thorough { 300_000 } else { 24_000 };
     let (stats, failure, _) = drive(seed, cases, 1200, &[], |bytes| {
         let mut t = Tape::new(bytes);
         run_c09(&C9Plan::decode(&mut t, tier))
